@@ -40,7 +40,7 @@ def _parse_command_line(cli_args = None):
 
 def _create_override_tuple(key, has_value = True):
   # TODO: Error handling for malformed options
-  section,key = key.split(":", 1)
+  section,key = _query_actions._split_item_label(key)
   if has_value:
     key, value = key.split("=", 1)
   else:
